@@ -281,6 +281,13 @@ def rand_leaf(r, boolish=False):
     return ("lit", "bool", r.random() < 0.5)
 
 
+def boolish(r, t):
+    """the type checker rejects a numeric LITERAL where a bool is expected (columns are untyped)"""
+    if t[0] == "lit" and t[1] in ("int", "float"):
+        return ("col", r.randrange(3)) if r.random() < 0.7 else ("lit", "bool", r.random() < 0.5)
+    return t
+
+
 def rand_tree(r, d, allow_null_cmp=True):
     if d <= 0 or r.random() < 0.12:
         return rand_leaf(r)
@@ -291,9 +298,13 @@ def rand_tree(r, d, allow_null_cmp=True):
             return ("bin", k, x, ("lit", "null", None)) if r.random() < 0.7 else ("bin", k, ("lit", "null", None), x)
         if k == "Pow":
             return ("bin", k, rand_tree(r, d - 1), ("lit", "int", r.choice([0, 1, 2, 2, 3])) if r.random() < 0.8 else rand_tree(r, d - 2))
-        return ("bin", k, rand_tree(r, d - 1), rand_tree(r, d - 1))
+        l, rr = rand_tree(r, d - 1), rand_tree(r, d - 1)
+        if k in ("And", "Or"):
+            l, rr = boolish(r, l), boolish(r, rr)
+        return ("bin", k, l, rr)
     if k in ("Neg", "Not", "Pos"):
-        return ("un", k, rand_tree(r, d - 1))
+        x = rand_tree(r, d - 1)
+        return ("un", k, boolish(r, x) if k == "Not" else x)
     if k == "case":
         n = r.randint(1, 3)
         cs = [(rand_tree(r, d - 1), rand_tree(r, d - 1)) for _ in range(n)]
@@ -314,6 +325,8 @@ def rand_tokens(r, nops):
     def operand(dep, allow_unary=True):
         if allow_unary and r.random() < 0.22:
             toks.append(("U", r.choice(["Neg", "Neg", "Not", "Add", "EqSelf"])))
+            if toks[-1][1] != "EqSelf" and r.random() < 0.06:
+                toks.append(("U", r.choice(["Neg", "Not", "Add"])))     # unary of unary: the layering rejects it
             if toks[-1][1] == "EqSelf":
                 toks.append(("A", r.randrange(3)))
                 return
@@ -326,7 +339,7 @@ def rand_tokens(r, nops):
         operand(dep)
         ranged = False
         for _ in range(k):
-            if not ranged and r.random() < 0.12:
+            if (not ranged and r.random() < 0.12) or (ranged and r.random() < 0.04):   # rarely: a..b..c (rejected)
                 toks.append(("O", "Range")); ranged = True
             else:
                 toks.append(("O", r.choice(BINOPS))); ranged = False
@@ -486,6 +499,8 @@ def binop(op, x, y):
 
 
 def is_null_lit(t):
+    if t[0] == "un" and t[1] == "Pos":
+        return is_null_lit(t[2])
     return t[0] == "lit" and t[1] == "null"
 
 
@@ -520,12 +535,13 @@ def eval_doc(t, env):
             return v
         raise Undef()
     if k == "case":
-        vals = [(eval_doc(c, env), eval_doc(v, env)) for c, v in t[1]]
-        for c, v in vals:
-            if truth(c) is True:
-                return v
+        for c, v in t[1]:
+            if truth(eval_doc(c, env)) is True:
+                return eval_doc(v, env)
         return None
     if k == "in":
+        if all(b is None or is_null_lit(b) for b in (t[2], t[3])):
+            return 1
         v = eval_doc(t[1], env)
         parts = []
         for b, o in ((t[2], "Gte"), (t[3], "Lte")):
